@@ -71,7 +71,7 @@ class SimSocket(object):
     def __init__(self, net, host):
         self.net = net
         self.host = host            # host index
-        self._fd = net.new_fd()
+        self._fd = net.new_fd(host)
         self.state = 'new'          # new, connecting, connected, listening, closed
         self.rx = None
         self.tx = None
@@ -198,11 +198,13 @@ class SimSocket(object):
                 # closing with unread data -> RST instead of FIN
                 self.tx.rst_pending = True
             self.rx.rcv = bytearray()
-            net.socks.pop(self._fd, None)
+            if net.socks.pop(self._fd, None) is self:
+                net.release_fd(self._fd, self.host)
             net._gc(self.tx)
             return
         self.state = 'closed'
-        net.socks.pop(self._fd, None)
+        if net.socks.pop(self._fd, None) is self:
+            net.release_fd(self._fd, self.host)
 
     # -- readiness ---------------------------------------------------------------
     def ready(self):
@@ -269,9 +271,98 @@ class SimPoller(object):
             cur[0](fd, m)
 
 
+# -- the repository's own pollers over a simulated `select` module ------------------------------------
+POLLIN, POLLPRI, POLLOUT, POLLERR, POLLHUP, POLLNVAL = 1, 2, 4, 8, 16, 32
+
+
+class FakePoll(object):
+    """select.poll() work-alike: level-triggered, events computed at the call from the descriptor NUMBERS
+    registered (a closed descriptor that is still registered yields POLLNVAL, a re-used number is the new socket)."""
+
+    def __init__(self):
+        self.reg = {}
+
+    def register(self, fd, eventmask=POLLIN | POLLPRI | POLLOUT):
+        self.reg[fd] = eventmask
+
+    def modify(self, fd, eventmask):
+        if fd not in self.reg:
+            raise OSError(_errno.ENOENT, 'No such file or directory')
+        self.reg[fd] = eventmask
+
+    def unregister(self, fd):
+        del self.reg[fd]
+
+    def poll(self, timeout=None):
+        net = CTX.world.net
+        net.charge()
+        out = []
+        for fd, mask in list(self.reg.items()):
+            s = net.socks.get(fd)
+            if s is None:
+                out.append((fd, POLLNVAL))
+                continue
+            m = s.ready()
+            ev = 0
+            if m & R:
+                ev |= POLLIN
+            if m & W:
+                ev |= POLLOUT
+            ev &= mask
+            if m & E:
+                ev |= POLLERR | POLLHUP
+            if ev:
+                out.append((fd, ev))
+        if net.poll_shuffle and len(out) > 1:
+            net.shuffle(out)
+        return out
+
+
+class FakeSelectModule(object):
+    """What pysyncobj.poller uses of the `select` module."""
+    POLLIN, POLLPRI, POLLOUT, POLLERR, POLLHUP, POLLNVAL = POLLIN, POLLPRI, POLLOUT, POLLERR, POLLHUP, POLLNVAL
+    error = OSError
+
+    @staticmethod
+    def poll():
+        return FakePoll()
+
+    @staticmethod
+    def select(rlist, wlist, xlist, timeout=None):
+        net = CTX.world.net
+        net.charge()
+        rr, ww = [], []
+        for lst, bit, out in ((rlist, R, rr), (wlist, W, ww)):
+            for fd in lst:
+                s = net.socks.get(fd)
+                if s is None:
+                    raise OSError(_errno.EBADF, 'Bad file descriptor')
+                m = s.ready()
+                # a pending error makes a socket readable and writable; the third list is for out-of-band data only
+                if m & bit or m & E:
+                    out.append(fd)
+        for fd in xlist:
+            if net.socks.get(fd) is None:
+                raise OSError(_errno.EBADF, 'Bad file descriptor')
+        if net.poll_shuffle:
+            if len(rr) > 1:
+                net.shuffle(rr)
+            if len(ww) > 1:
+                net.shuffle(ww)
+        return rr, ww, []
+
+
 def create_poller(pollerType):
     w = CTX.world
-    return SimPoller(w.net, w.cur)
+    kind = w.net.poller_kind
+    if kind == 'sim':
+        return SimPoller(w.net, w.cur)
+    from .boot import M
+    if kind == 'poll':
+        return M.pl.PollPoller()
+    if kind == 'select':
+        return M.pl.SelectPoller()
+    raise ValueError(kind)
 
 
 class Net(object):
@@ -279,6 +370,10 @@ class Net(object):
         self.world = world
         self.cap = cap
         self._fd = 1000
+        self.fd_reuse = False
+        self._free = {}
+        self._next = {}
+        self.poller_kind = 'sim'
         self._pair = {}
         self.socks = {}
         self.listeners = {}      # (host, port) -> SimSocket
@@ -292,9 +387,24 @@ class Net(object):
         self.port_to_host = {}
         self.blocked = None      # callable (a, b) -> bool : partitioned?
 
-    def new_fd(self):
+    def new_fd(self, host=None):
+        if self.fd_reuse and host is not None:
+            # like a kernel: the lowest free descriptor number of the process (each simulated host has a number
+            # range of its own, so descriptors stay unique across the processes of one simulation)
+            free = self._free.get(host)
+            if free:
+                import heapq
+                return heapq.heappop(free)
+            n = self._next.get(host, 0)
+            self._next[host] = n + 1
+            return 100000 * (host + 1) + n
         self._fd += 1
         return self._fd
+
+    def release_fd(self, fd, host):
+        if self.fd_reuse:
+            import heapq
+            heapq.heappush(self._free.setdefault(host, []), fd)
 
     def charge(self):
         self.world.T += self.cpu_cost
